@@ -168,7 +168,9 @@ pub fn shadow_call(cfg: &Cfg, views: &[TrackView], scene: u64, epoch: usize, det
                     }
                 }
                 // appearance part
-                if visual && use_ok && v.collected >= cfg.vis.min_track_len {
+                // "the track has collected at least the minimal number of features": counted on the
+                // gallery actually stored, not on the track's own counter
+                if visual && use_ok && v.gallery.iter().filter(|g| g.feature.is_some()).count() >= cfg.vis.min_track_len {
                     let f = pad8(d.feat.as_ref().unwrap());
                     for g in &v.gallery {
                         if let Some(tf) = &g.feature {
